@@ -504,8 +504,8 @@ def run(ctx: Ctx) -> int:
     # conditions written as chained comparisons (`a < b <= c`): the model is given the conjunction they abbreviate, so T is skipped for them
     progs += [langgen.G(rng, max_depth=rng.choice([2, 3]), chains=True, strings=True).program() for _ in range(ctx.n(50, 600))]
     progs += FIXED_TUPLES
-    # W6: programs with helper functions (a PRNG of their own: the streams above are unchanged).  The model translates and runs them
-    # (T, S_py, S_c below); `InF` does not admit calls yet, so the theorem does not speak about them (driver answers "out")
+    # W6: programs with helper functions (a PRNG of their own: the streams above are unchanged): procedures and value-returning helpers
+    # called at statement level.  They are in `InF` (generator invariant below) and go through T, S_py, S_c, E like the others
     import random as _random
     hr = _random.Random(f"{ctx.seed}:C01:helpers")
     progs += FIXED_HELPERS
@@ -540,9 +540,7 @@ def run(ctx: Ctx) -> int:
             ctx.count("helper-definitions", len(p["helpers"]))
             ctx.count("helper-calls", sx.count("(call "))
             ctx.count("helper-calls-with-target", sx.count("(call ") - sx.count("(call _ "))
-            if t.startswith("ok") and not t.endswith(" out"):
-                ctx.tie_diff("W6 increment 1: InF does not admit calls", {"script": src}, t[-4:], "out")
-        elif t.startswith("ok") and not t.endswith(" in"):
+        if t.startswith("ok") and not t.endswith(" in"):
             ctx.tie_diff("generator invariant (generated programs are in InF / promotion programs in InF2)", {"script": src}, t[-4:], "")
         if "(s x" in sx:
             ctx.count("programs-using:strings")
